@@ -101,7 +101,9 @@ type Geom struct {
 	P     [][][]Coord `json:"p,omitempty"`
 	G     []*Geom     `json:"g,omitempty"`
 	Fixed bool        `json:"fixed,omitempty"`
-	// How selects the construction route in Build (0 New*Flat, 1 SetCoords,
+	// How/3 odd: the second flavour of a route (empty arrays non-nil, spare
+	// capacity reserved after construction).
+	// How%3 selects the construction route in Build (0 New*Flat, 1 SetCoords,
 	// 2 repeated Push); it is not part of the value.
 	How int `json:"how,omitempty"`
 	// Same > 0 on member i of a collection: Build puts the *same object* as
@@ -477,7 +479,24 @@ func toLib2(css [][]Coord) [][]geom.Coord {
 // Build constructs the library object for a model through the public API. The
 // route is chosen by m.How. It returns an error if the library rejects a step
 // that must succeed for a well-formed model.
-func Build(m *Geom) (g geom.T, err error) {
+func Build(m *Geom) (geom.T, error) {
+	g, err := build(m)
+	if err == nil && m.T != GC && (m.How/3)%2 == 1 {
+		// second flavour of every route: room for two more coordinates is
+		// reserved after construction (capacity is not content; an empty
+		// geometry then holds an empty, non-nil coordinate array)
+		if rs, ok := g.(interface{ Reserve(int) }); ok {
+			n := 2
+			if st := g.Stride(); st > 0 {
+				n += len(g.FlatCoords()) / st
+			}
+			rs.Reserve(n)
+		}
+	}
+	return g, err
+}
+
+func build(m *Geom) (g geom.T, err error) {
 	defer func() {
 		if r := recover(); r != nil {
 			g, err = nil, fmt.Errorf("panic while building %s: %v", m.T, r)
@@ -487,6 +506,9 @@ func Build(m *Geom) (g geom.T, err error) {
 	l := m.Layout()
 	how := m.How % 3
 	flat, ends, endss := m.Flat()
+	if (m.How/3)%2 == 1 && flat == nil {
+		flat = []float64{} // the constructors are given an empty array, not nil
+	}
 	switch m.T {
 	case Pt:
 		var p *geom.Point
